@@ -257,6 +257,14 @@ class PduBase(object):
         did = data.pop(0) if pfb.did else None
         return cls(pfb, did)
 
+    def enc(self, tail):
+        pfb = self.pfb
+        b = (pfb.fmt << 4) | (pfb.nad << 3) | (pfb.did << 2) | pfb.pni
+        data = bytearray([b & 255])
+        if self.pfb.did:
+            data.append(self.did)
+        return data + tail
+
 
 def batch3(key, data, cfg, step):
     rev = key[7::-1] + key[15:7:-1] + key[:-4:-1] + key[::-1][0:1]
